@@ -188,10 +188,33 @@ PROPS["C17"] = dict(
                 "interval, polynomial exactness, call sequences, tensor-product sums.",
     limit_quick=90)
 
+PROPS["C07"] = dict(
+    level="proof", needs_ext=True,
+    technique="contract-based deductive verification of the field-list algebra over an abstract structured-array model (own VC "
+              "generator over the Python ast, z3), one contract per name structure with symbolic types / shapes / lengths / data; "
+              "numpy's dtype algebra assumed and exercised by a labelled bounded stand-in",
+    level_text="extract_fields, remove_fields, reorder_fields (11 request shapes x strict/lenient on 3-field and 1-field arrays), "
+               "add_fields (8 descriptor/default combinations), copy_fields and combine_fields (1-3 arrays, shared name, unequal "
+               "sizes) are verified against the statement: the result's field list is exactly the documented one, it has the "
+               "input's length, every retained field has the same type code, sub-array shape code and element-wise equal data, new "
+               "fields are zero or the supplied default, the result is a new object and the inputs are untouched, and exactly the "
+               "stated requests raise ValueError. Names are concrete per contract (the name structure is enumerated), everything "
+               "else is symbolic.",
+    level_note="Trusted: esvc, z3; the structured-array model (ordered named fields with opaque type / sub-shape codes and symbolic "
+               "columns; dtype.descr of a packed dtype, zeros(shape, dtype=descr) reproduces the descr and rejects duplicate names, "
+               "field read is a view and field write an element-wise copy) - numpy's dtype algebra is assumed; proofs cover arrays of "
+               "1-3 fields and request lists of 0-3 names (enumerated name structures, not all lengths); 0-d / 2-d arrays, sub-array "
+               "and string fields, byte orders, name arrays and larger field lists are covered by the bounded layer only; "
+               "compare_arrays and copy_fields_by_name are not under a proved contract (the latter is inlined into add_fields).",
+    explanation="Proved: 116 contracts (name structures). Bounded (labelled): 250 (quick) / 6000 (thorough) random real structured "
+                "arrays through extract/remove/reorder/add with scalar/list/tuple/array name lists, 1-4 array combinations incl. "
+                "error cases, copy_fields + split_fields per-field equality.",
+    limit_quick=60)
+
 for _k in range(1, 21):
     PROPS.setdefault("C%02d" % _k, dict(level="other", needs_ext=True, explanation="see DESIGN.md section 8"))
 
 
-CLAIMED = {"C20", "C02", "C05", "C06", "C16", "C18", "C11", "C14", "C17"}
+CLAIMED = {"C20", "C02", "C05", "C06", "C16", "C18", "C11", "C14", "C17", "C07"}
 NOT_APPLICABLE = {("C%02d" % k): "check not built yet (implementation in progress; plan in DESIGN.md section 8)"
                   for k in range(1, 21) if ("C%02d" % k) not in CLAIMED}
